@@ -83,6 +83,120 @@ def repOf : Option Int → Except Reason (Option Schema.Rep)
   | some 2 => .ok (some .repeated)
   | some _ => .error .badRepetition
 
+/-! ### LogicalType (SchemaElement field 10)
+
+A Thrift union is a struct value with EXACTLY ONE field (that is how every Thrift runtime reads it:
+one field, then the stop byte).  Each member struct is checked like every other struct: all REQUIRED
+fields of parquet.thrift present (DecimalType scale and precision, TimeType / TimestampType
+isAdjustedToUTC and unit, IntType bitWidth and isSigned), known fields of the table's type, unknown
+ids ignored.  A single member whose id the list of `Schema.Annotation` does not have (a newer
+annotation) is accepted and yields no annotation; a TimeUnit that is not MILLIS / MICROS / NANOS is
+rejected (the annotation could not be stated). -/
+
+def getBool (fs : Fields) (id : Int) : Option Bool :=
+  match field? fs id with
+  | some (.bool b) => some b
+  | _ => none
+
+/-- union TimeUnit -/
+def timeUnitOf (fs : Fields) : Except Reason Schema.AnnotTimeUnit :=
+  match checkStruct timeUnit fs with
+  | .error e => .error e
+  | .ok () =>
+    match fs with
+    | [f] => if f.1 = 1 then .ok .millis else if f.1 = 2 then .ok .micros else if f.1 = 3 then .ok .nanos
+             else .error .unknownTimeUnit
+    | _ => .error (.unionNotOneMember "TimeUnit")
+
+/-- DecimalType: (scale, precision), both REQUIRED -/
+def decimalTypeOf (fs : Fields) : Except Reason (Int × Int) :=
+  match checkStruct decimalType fs with
+  | .error e => .error e
+  | .ok () =>
+    match getInt fs 1, getInt fs 2 with
+    | some s, some p => .ok (s, p)
+    | _, _ => .error (.missingField "DecimalType")
+
+/-- TimeType / TimestampType: (isAdjustedToUTC, unit), both REQUIRED -/
+def timeTypeOf (fs : Fields) : Except Reason (Bool × Schema.AnnotTimeUnit) :=
+  match checkStruct timeType fs with
+  | .error e => .error e
+  | .ok () =>
+    match getBool fs 1, getStruct fs 2 with
+    | some utc, some u =>
+      match timeUnitOf u with
+      | .ok unit => .ok (utc, unit)
+      | .error e => .error e
+    | _, _ => .error (.missingField "TimeType / TimestampType")
+
+/-- IntType: (bitWidth, isSigned), both REQUIRED -/
+def intTypeOf (fs : Fields) : Except Reason (Int × Bool) :=
+  match checkStruct intType fs with
+  | .error e => .error e
+  | .ok () =>
+    match getInt fs 1, getBool fs 2 with
+    | some bw, some sg => .ok (bw, sg)
+    | _, _ => .error (.missingField "IntType")
+
+/-- the member `id` of the LogicalType union with member struct `m` -/
+def logicalMemberOf (id : Int) (m : Fields) : Except Reason (Option Schema.Annotation) :=
+  if id = 1 then .ok (some .string) else if id = 2 then .ok (some .map) else if id = 3 then .ok (some .list)
+  else if id = 4 then .ok (some .enum)
+  else if id = 5 then (match decimalTypeOf m with
+                       | .ok sp => .ok (some (.decimal sp.1 sp.2))
+                       | .error e => .error e)
+  else if id = 6 then .ok (some .date)
+  else if id = 7 then (match timeTypeOf m with
+                       | .ok t => .ok (some (.time t.1 t.2))
+                       | .error e => .error e)
+  else if id = 8 then (match timeTypeOf m with
+                       | .ok t => .ok (some (.timestamp t.1 t.2))
+                       | .error e => .error e)
+  else if id = 10 then (match intTypeOf m with
+                        | .ok t => .ok (some (.integer t.1 t.2))
+                        | .error e => .error e)
+  else if id = 11 then .ok (some .nullType) else if id = 12 then .ok (some .json) else if id = 13 then .ok (some .bson)
+  else if id = 14 then .ok (some .uuid) else if id = 15 then .ok (some .float16) else .ok none
+
+/-- union LogicalType: exactly one member, the member struct complete -/
+def logicalTypeOf (fs : Fields) : Except Reason (Option Schema.Annotation) :=
+  match checkStruct ParquetThrift.logicalType fs with
+  | .error e => .error e
+  | .ok () =>
+    match fs with
+    | [f] => (match f.2 with
+              | .struct m => logicalMemberOf f.1 m
+              | _ => .ok none)
+    | _ => .error (.unionNotOneMember "LogicalType")
+
+/-- field 10 of a SchemaElement (after `checkStruct`: a struct when present) -/
+def optLogicalTypeOf (fs : Fields) : Except Reason (Option Schema.Annotation) :=
+  match getStruct fs 10 with
+  | none => .ok none
+  | some u => logicalTypeOf u
+
+/-! #### "complete per parquet.thrift", as a predicate on the union value alone (used to STATE what a
+written footer satisfies; the reader above enforces it by construction) -/
+
+/-- the struct of parquet.thrift behind member `id` of the LogicalType union: 5 DecimalType,
+7 TimeType, 8 TimestampType, 10 IntType; every other member is a struct without fields -/
+def memberSpec (id : Int) : StructSpec :=
+  if id = 5 then decimalType else if id = 7 ∨ id = 8 then timeType else if id = 10 then intType else emptyStruct
+
+/-- a TimeUnit union value: exactly one member, and it is MILLIS, MICROS or NANOS -/
+def timeUnitComplete : Option TVal → Bool
+  | some (.struct [(k, .struct _)]) => k == 1 || k == 2 || k == 3
+  | _ => false
+
+/-- **a LogicalType union value is complete per parquet.thrift**: exactly one member, of an id the union
+has, a struct; every REQUIRED field of the member's struct present and every known field of the type
+parquet.thrift gives it; the `unit` of a TIME / TIMESTAMP itself a one-member TimeUnit union -/
+def logicalTypeComplete : Fields → Bool
+  | [(id, .struct m)] =>
+    (ParquetThrift.logicalType.find id).isSome && (memberSpec id).complete m && knownTyped (memberSpec id) m &&
+    (if id = 7 ∨ id = 8 then timeUnitComplete (field? m 2) else true)
+  | _ => false
+
 def schemaElementOf (fs : Fields) : Except Reason Schema.Element := do
   checkStruct schemaElement fs
   let nameB ← match getBin fs 4 with | some b => pure b | none => throw (.missingField "SchemaElement")
@@ -90,7 +204,8 @@ def schemaElementOf (fs : Fields) : Except Reason Schema.Element := do
   let rep ← repOf (getInt fs 3)
   let pt ← optNatField "SchemaElement.type" fs 1
   let conv ← optNatField "SchemaElement.converted_type" fs 6
-  pure ⟨⟨name, rep, pt, (getInt fs 2).getD 0, conv⟩, (getInt fs 5).getD 0⟩
+  let lt ← optLogicalTypeOf fs
+  pure ⟨⟨name, rep, pt, (getInt fs 2).getD 0, conv, lt⟩, (getInt fs 5).getD 0⟩
 
 def schemaElementsOf : List Fields → Except Reason (List Schema.Element)
   | [] => .ok []
@@ -281,6 +396,28 @@ def optField {α : Type} (id : Int) (mk : α → TVal) : Option α → Fields
 def repCode : Schema.Rep → Int
   | .required => 0 | .optional => 1 | .repeated => 2
 
+def annotUnitTV : Schema.AnnotTimeUnit → TVal
+  | .millis => .struct [(1, .struct [])]
+  | .micros => .struct [(2, .struct [])]
+  | .nanos => .struct [(3, .struct [])]
+
+/-- the LogicalType union value stating an annotation: one member, its required fields -/
+def annotationTV : Schema.Annotation → TVal
+  | .string => .struct [(1, .struct [])]
+  | .map => .struct [(2, .struct [])]
+  | .list => .struct [(3, .struct [])]
+  | .enum => .struct [(4, .struct [])]
+  | .decimal scale precision => .struct [(5, .struct [(1, .i32 scale), (2, .i32 precision)])]
+  | .date => .struct [(6, .struct [])]
+  | .time utc u => .struct [(7, .struct [(1, .bool utc), (2, annotUnitTV u)])]
+  | .timestamp utc u => .struct [(8, .struct [(1, .bool utc), (2, annotUnitTV u)])]
+  | .integer bw sg => .struct [(10, .struct [(1, .i8 bw), (2, .bool sg)])]
+  | .nullType => .struct [(11, .struct [])]
+  | .json => .struct [(12, .struct [])]
+  | .bson => .struct [(13, .struct [])]
+  | .uuid => .struct [(14, .struct [])]
+  | .float16 => .struct [(15, .struct [])]
+
 def schemaElementTV (e : Schema.Element) (extra : Fields) : TVal :=
   .struct (withExtras
     (optField 1 (fun n : Nat => .i32 n) e.info.ptype ++
@@ -288,7 +425,8 @@ def schemaElementTV (e : Schema.Element) (extra : Fields) : TVal :=
      optField 3 (fun r => .i32 (repCode r)) e.info.rep ++
      [(4, .binary (strBytes e.info.name))] ++
      (if e.numChildren = 0 then [] else [(5, .i32 e.numChildren)]) ++
-     optField 6 (fun n : Nat => .i32 n) e.info.logical) extra)
+     optField 6 (fun n : Nat => .i32 n) e.info.logical ++
+     optField 10 annotationTV e.info.logicalType) extra)
 
 def columnMetaTV (m : ColumnMeta) (stats : Option TVal) (extra : Fields) : TVal :=
   .struct (withExtras
